@@ -248,6 +248,12 @@ func (acc *DB) ExecDepositFrozen(addr, execaddr string, amount int64) (*types.Re
 	if addr == execaddr {
 		return nil, types.ErrSendSameToRecv
 	}
+	//the frozen addition below must not fail after the coins have been issued
+	if acc.CheckAmount(amount) {
+		if _, err := safeAdd(acc.LoadExecAccount(addr, execaddr).GetFrozen(), amount); err != nil {
+			return nil, err
+		}
+	}
 	//issue coins to exec addr
 	receipt1, err := acc.ExecIssueCoins(execaddr, amount)
 	if err != nil {
